@@ -502,6 +502,64 @@ pub fn run(ctx: &Ctx) -> Report {
             }
         }
     }
+    // ---- a record of type T whose content is NOT well formed for T (nothing but its type word;
+    //      a count that contradicts the content length): requested as S != T, the answer is still
+    //      the type mismatch naming T — the type word is compared before anything is decoded
+    for &s_code in &TYPES {
+        for &t in &TYPES {
+            if s_code == t {
+                continue;
+            }
+            for style in 0..2usize {
+                let case = format!("c06:malformed:S{}:T{}:{}", s_code, t, style);
+                if !ctx.want(&case) {
+                    continue;
+                }
+                let mut r = Rng::derive(ctx.seed, &[tag("c06-malformed"), s_code as u64, t as u64, style as u64]);
+                let mut shp = vec![0u8; 100];
+                shp[0..4].copy_from_slice(&9994i32.to_be_bytes());
+                shp[28..32].copy_from_slice(&1000i32.to_le_bytes());
+                shp[32..36].copy_from_slice(&t.to_le_bytes());
+                let body: Vec<u8> = if style == 0 {
+                    t.to_le_bytes().to_vec()
+                } else {
+                    // a real record of type T with 8 bytes cut off its end (the content length says so too)
+                    let one = gen::shape(t, &mut r, &Cfg::plain(2, 3));
+                    let (b, _) = write_all_mem(std::slice::from_ref(&one), false).expect("harness: writing one shape failed");
+                    b[108..b.len() - 8].to_vec()
+                };
+                shp.extend_from_slice(&1i32.to_be_bytes());
+                shp.extend_from_slice(&((body.len() / 2) as i32).to_be_bytes());
+                shp.extend_from_slice(&body);
+                let w = (shp.len() / 2) as i32;
+                shp[24..28].copy_from_slice(&w.to_be_bytes());
+                let mk = || ShapeReader::new(Cursor::new(shp.clone()));
+                let routes: Vec<(&str, Out)> = for_type!(s_code, S => vec![
+                    ("read_as", classify(panicmon::catch(|| mk().and_then(|r| r.read_as::<S>())))),
+                    ("iter_shapes_as", classify(panicmon::catch(|| mk().and_then(|mut r| r.iter_shapes_as::<S>().collect::<Result<Vec<S>, Error>>())))),
+                ]);
+                for (route, got) in routes {
+                    rep.eval();
+                    rep.class("malformed-foreign-record");
+                    rep.nontrivial(&format!("malformed:S{}:T{}:{}:{}", s_code, t, style, route));
+                    rep.count("typed_reads_of_a_malformed_record_of_another_type", 1);
+                    if got != Out::Mismatch(s_code, t) {
+                        rep.violation(
+                            &format!("({},{})/{}/malformed-record", type_name(s_code), type_name(t), route),
+                            &case,
+                            J::obj(vec![
+                                ("requested_S", J::s(type_name(s_code))),
+                                ("record_type_T", J::s(type_name(t))),
+                                ("content", J::s(["nothing but the type word", "a real record with its last 8 bytes missing"][style])),
+                                ("got", out_json(&got)),
+                                ("shp_hex", J::bytes_hex(&shp)),
+                            ]),
+                        );
+                    }
+                }
+            }
+        }
+    }
     if ctx.only.is_none() {
         let v = rep.counters.get("mixed_sequences_with_two_or_more_foreign_types").copied().unwrap_or(0);
         rep.guard("mixed sequences with >= 2 foreign types", v, if cfg!(miri) { 1 } else { 100 });
